@@ -8,8 +8,31 @@ import (
 	"go/types"
 	"io/fs"
 	"os"
+	"reflect"
 	"sort"
 )
+
+var posType = reflect.TypeOf(token.NoPos)
+
+// clearPos removes the source positions of an expression copied from an input file: they belong
+// to another file set and must not steer the layout of the output.
+func clearPos(expr ast.Expr) {
+	ast.Inspect(expr, func(n ast.Node) bool {
+		if n == nil || reflect.ValueOf(n).IsNil() {
+			return false
+		}
+		if _, leaf := n.(*ast.Ident); n == ast.Node(expr) && leaf {
+			return true // a bare identifier keeps its place (golden interface_value)
+		}
+		v := reflect.ValueOf(n).Elem()
+		for i := 0; i < v.NumField(); i++ {
+			if f := v.Field(i); f.Type() == posType && f.CanSet() {
+				f.SetInt(0)
+			}
+		}
+		return true
+	})
+}
 
 // Constants for file generation and formatting.
 const (
@@ -339,6 +362,7 @@ func (w *Writer) valueToExpr(kv *KessokuValue) ast.Expr {
 	if expr == nil {
 		expr = ast.NewIdent("nil")
 	}
+	clearPos(expr)
 	return &ast.CallExpr{
 		Fun: &ast.SelectorExpr{
 			X:   ast.NewIdent("kessoku"),
